@@ -38,6 +38,8 @@ pub struct Rec {
     h: u64,
     pub log: Option<String>,
     pub events: u64,
+    /// side buffer for step-by-step comparisons (reuse engines)
+    pub cap: Option<String>,
 }
 
 impl Rec {
@@ -46,6 +48,7 @@ impl Rec {
             h: 0xcbf29ce484222325,
             log: if keep_log { Some(String::new()) } else { None },
             events: 0,
+            cap: None,
         }
     }
     pub fn digest(&self) -> u64 {
@@ -65,6 +68,11 @@ impl Write for Rec {
         if let Some(l) = &mut self.log {
             if l.len() < (4 << 20) {
                 l.push_str(s);
+            }
+        }
+        if let Some(c) = &mut self.cap {
+            if c.len() < (1 << 20) {
+                c.push_str(s);
             }
         }
         Ok(())
@@ -200,6 +208,16 @@ impl<'c> Ctx<'c> {
                 detail,
             });
         }
+    }
+
+    /// Start capturing events into a side buffer.
+    pub fn capture_begin(&mut self) {
+        self.rec.cap = Some(String::new());
+    }
+
+    /// Stop capturing and return what was captured.
+    pub fn capture_end(&mut self) -> String {
+        self.rec.cap.take().unwrap_or_default()
     }
 
     /// Bound for "iterator over n input bytes must reach its end marker".
